@@ -25,7 +25,10 @@ PoolOf(kind) ==
 Lits == UNION {{S(x) : x \in {y \in SUBSET PoolOf(k) : Cardinality(y) <= MaxLit}} : k \in Kinds}
 
 KindsOf(c) == {ValAttr(t) : t \in c.s}          \* ++ can mix kinds in one collection
-IsSeq(c)  == \A t \in c.s : ValAttr(t) \in {"ch", "it", "by"} /\ IsInt(At(t))
+\* n\seq is defined for a sequence of one kind (string, byte array or array); what it does to a
+\* collection that ++ has mixed from two kinds is left open
+IsSeq(c)  == /\ \A t \in c.s : ValAttr(t) \in {"ch", "it", "by"} /\ IsInt(At(t))
+             /\ Cardinality(KindsOf(c)) <= 1
 AllNum(c) == \A t \in c.s : IsInt(Val(t))
 AllIntKeys(c) == \A t \in c.s : IsInt(At(t))
 
